@@ -187,13 +187,12 @@ def ConsumeSpec (cfg : Cfg) (res0 : Result) (req : RequestSeen) (r : Resp) (o : 
     o.res.body = capture cfg.maxBody (avail r) ∧
     DrainedAndClosed (avail r).length (termEv r.failAfter.isSome) o.bodyLog ∧
     o.res.attack = res0.attack ∧ o.res.seq = res0.seq ∧ o.res.method = res0.method ∧ o.res.url = res0.url ∧
+    o.res.bytesIn = (capture cfg.maxBody (avail r)).length ∧
+    o.res.bytesOut = (if req.contentLength ≠ -1 then (wrapU64 req.contentLength).toNat else res0.bytesOut) ∧
     (r.failAfter.isSome = true →
-      o.res.error = r.readErr ∧ o.res.code = res0.code ∧ o.res.bytesIn = res0.bytesIn ∧
-      o.res.bytesOut = res0.bytesOut ∧ o.res.headers = res0.headers) ∧
+      o.res.error = r.readErr ∧ o.res.code = res0.code ∧ o.res.headers = res0.headers) ∧
     (r.failAfter.isSome = false →
       o.res.code = toUint16 r.status ∧ o.res.headers = some r.header ∧
-      o.res.bytesIn = (capture cfg.maxBody (avail r)).length ∧
-      o.res.bytesOut = (if req.contentLength ≠ -1 then (wrapU64 req.contentLength).toNat else 0) ∧
       o.res.error = (if toUint16 r.status < 200 ∨ toUint16 r.status ≥ 400 then r.statusText else []))
 
 /-- `consume`, in closed form, for every chunk oracle. -/
@@ -235,8 +234,9 @@ theorem aux_consume (cfg : Cfg) (res0 : Result) (req : RequestSeen) (r : Resp) (
   | true =>
     obtain ⟨hfl, hk1⟩ := a7 rfl
     have hfa : r.failAfter.isSome = true := by rw [← hf0]; exact hfl
-    refine ⟨rfl, rfl, rfl, hbody, hclosed s1 k1 a3 hk1 (by rw [← hf0]; exact a5), rfl, rfl, rfl, rfl, ?_, ?_⟩
-    · intro _; exact ⟨rfl, rfl, rfl, rfl, rfl⟩
+    refine ⟨rfl, rfl, rfl, hbody, hclosed s1 k1 a3 hk1 (by rw [← hf0]; exact a5), rfl, rfl, rfl, rfl,
+      by rw [← hbody], rfl, ?_, ?_⟩
+    · intro _; exact ⟨rfl, rfl, rfl⟩
     · intro h; rw [hfa] at h; cases h
   | false =>
     dsimp only at *
@@ -247,15 +247,15 @@ theorem aux_consume (cfg : Cfg) (res0 : Result) (req : RequestSeen) (r : Resp) (
     | true =>
       have hfa : r.failAfter.isSome = true := by rw [← hf0]; exact (he2.trans a5).symm
       dsimp only at *
-      refine ⟨rfl, rfl, rfl, hbody, hclosed s2 k2 b3 hk2 hfl2, rfl, rfl, rfl, rfl, ?_, ?_⟩
-      · intro _; exact ⟨rfl, rfl, rfl, rfl, rfl⟩
+      refine ⟨rfl, rfl, rfl, hbody, hclosed s2 k2 b3 hk2 hfl2, rfl, rfl, rfl, rfl, by rw [← hbody], rfl, ?_, ?_⟩
+      · intro _; exact ⟨rfl, rfl, rfl⟩
       · intro h; rw [hfa] at h; cases h
     | false =>
       have hfa : r.failAfter.isSome = false := by rw [← hf0]; exact (he2.trans a5).symm
       dsimp only at *
-      refine ⟨rfl, rfl, rfl, hbody, hclosed s2 k2 b3 hk2 hfl2, rfl, rfl, rfl, rfl, ?_, ?_⟩
+      refine ⟨rfl, rfl, rfl, hbody, hclosed s2 k2 b3 hk2 hfl2, rfl, rfl, rfl, rfl, by rw [← hbody], rfl, ?_, ?_⟩
       · intro h; rw [hfa] at h; cases h
-      · intro _; exact ⟨rfl, rfl, by rw [← hbody], rfl, rfl⟩
+      · intro _; exact ⟨rfl, rfl, rfl⟩
 
 /-! ### `hit` path by path -/
 
@@ -403,7 +403,7 @@ theorem err_empty_iff_completed_2xx_3xx (t : Target) (u : UrlInfo) (cfg : Cfg) (
     · rintro ⟨r, ⟨_, hr, _⟩, _⟩; rw [hd] at hr; cases hr
   | response req0 r h hd =>
     rw [aux_hit_resp t u cfg seq ex req0 r h hd]
-    obtain ⟨_, _, _, _, _, _, _, _, _, hfail, hok⟩ := aux_consume cfg (base t cfg seq) (inject cfg seq req0) r ex.chunks
+    obtain ⟨_, _, _, _, _, _, _, _, _, _, _, hfail, hok⟩ := aux_consume cfg (base t cfg seq) (inject cfg seq req0) r ex.chunks
     obtain ⟨hst, hre⟩ := hwf.2.2 r (aux_do_resp_obtainable cfg ex r hd)
     cases hfa : r.failAfter.isSome with
     | true =>
@@ -413,7 +413,7 @@ theorem err_empty_iff_completed_2xx_3xx (t : Target) (u : UrlInfo) (cfg : Cfg) (
       · rintro ⟨r', ⟨_, hr, hn⟩, _⟩
         rw [hd] at hr; injection hr with hr; subst hr; rw [hn] at hfa; cases hfa
     | false =>
-      rw [(hok hfa).2.2.2.2]
+      rw [(hok hfa).2.2]
       have hnone : r.failAfter = none := by cases h' : r.failAfter with
         | none => rfl
         | some k => rw [h'] at hfa; cases hfa
@@ -443,7 +443,7 @@ theorem failed_has_error_and_no_success_code (t : Target) (u : UrlInfo) (cfg : C
     exact ⟨aux_do_err_ne_nil u cfg ex hwf text hd, by simp [base, Result.zero]⟩
   | response req0 r h hd =>
     rw [aux_hit_resp t u cfg seq ex req0 r h hd]
-    obtain ⟨_, _, _, _, _, _, _, _, _, hfail, _⟩ := aux_consume cfg (base t cfg seq) (inject cfg seq req0) r ex.chunks
+    obtain ⟨_, _, _, _, _, _, _, _, _, _, _, hfail, _⟩ := aux_consume cfg (base t cfg seq) (inject cfg seq req0) r ex.chunks
     have hfa : r.failAfter.isSome = true := by
       rcases hf with ⟨e, he⟩ | ⟨text, ht⟩ | ⟨r', hr, hfa⟩
       · rw [h] at he; cases he
@@ -473,7 +473,7 @@ theorem completed_carries_code_and_headers (t : Target) (u : UrlInfo) (cfg : Cfg
     (hit t u cfg seq ex).res.code = toUint16 r.status ∧ (hit t u cfg seq ex).res.headers = some r.header := by
   obtain ⟨⟨req0, h⟩, hd, hn⟩ := hc
   rw [aux_hit_resp t u cfg seq ex req0 r h hd]
-  obtain ⟨_, _, _, _, _, _, _, _, _, _, hok⟩ := aux_consume cfg (base t cfg seq) (inject cfg seq req0) r ex.chunks
+  obtain ⟨_, _, _, _, _, _, _, _, _, _, _, _, hok⟩ := aux_consume cfg (base t cfg seq) (inject cfg seq req0) r ex.chunks
   have := hok (by rw [hn]; rfl)
   exact ⟨this.1, this.2.1⟩
 
@@ -510,19 +510,49 @@ theorem body_is_prefix (t : Target) (u : UrlInfo) (cfg : Cfg) (seq : Nat) (ex : 
 
 /-! ### byte counts
 
-Full statement of the clause ("bytes-in equal to the captured length and bytes-out equal to
-the request body length", for every response):
+"bytes-in equal to the captured length and bytes-out equal to the request body length", for
+every response — at full strength since fix bc20399 (DESIGN §8 #7): `BytesOut` is assigned
+before the body is read and `BytesIn` right after `io.ReadAll`, before the early returns. -/
 
-    ∀ t u cfg seq ex req0 r, request t u = .ok req0 → clientDo … = .resp r →
-      (hit t u cfg seq ex).res.bytesIn = (hit t u cfg seq ex).res.body.length ∧
-      (hit t u cfg seq ex).res.bytesOut = t.body.length
+theorem aux_content_length (t : Target) (u : UrlInfo) (req0 : RequestSeen) (cfg : Cfg) (seq : Nat)
+    (h : request t u = .ok req0) : (inject cfg seq req0).contentLength = t.body.length := by
+  unfold request at h
+  simp only at h
+  generalize (if t.method.isEmpty = true then methodGet else t.method) = m at h
+  by_cases h1 : (!validMethod m) = true
+  · rw [if_pos h1] at h; cases h
+  · rw [if_neg h1] at h
+    by_cases h2 : (!u.ok) = true
+    · rw [if_pos h2] at h; cases h
+    · rw [if_neg h2] at h; injection h with h; subst h; rfl
 
-It is FALSE for the code as it stands (DESIGN §8 #7): when reading the response body fails
-after k > 0 captured bytes `hit` returns early — `res.Body` holds the k bytes, `BytesIn` and
-`BytesOut` were never assigned.  `…_counterexample` prove the negation on a witness, the
-`…_partial` theorems prove the clause on every other path. -/
+/-- bytes-in equals the captured length on EVERY path: completed exchanges, body read errors
+(in `ReadAll` or in the drain, after any number of captured bytes), and the paths without a
+response (both are 0). -/
+theorem bytes_in_eq_len_body (t : Target) (u : UrlInfo) (cfg : Cfg) (seq : Nat) (ex : Exchange) :
+    (hit t u cfg seq ex).res.bytesIn = (hit t u cfg seq ex).res.body.length := by
+  cases pathOf t u cfg ex with
+  | reqError e h => rw [aux_hit_req_error t u cfg seq ex e h]; rfl
+  | doError req0 text h hd => rw [aux_hit_do_error t u cfg seq ex req0 text h hd]; rfl
+  | response req0 r h hd =>
+    rw [aux_hit_resp t u cfg seq ex req0 r h hd]
+    obtain ⟨_, _, _, hb, _, _, _, _, _, hbi, _⟩ := aux_consume cfg (base t cfg seq) (inject cfg seq req0) r ex.chunks
+    rw [hb, hbi]
 
-/-- a response whose 11-byte body fails after 5 bytes, for a POST with a 3-byte body -/
+/-- bytes-out equals the request body length on every path after a response was obtained —
+completed, read error, drain error (the request body is shorter than 2^64 bytes). -/
+theorem bytes_out_eq_len_request_body (t : Target) (u : UrlInfo) (cfg : Cfg) (seq : Nat) (ex : Exchange)
+    (req0 : RequestSeen) (r : Resp) (h : request t u = .ok req0)
+    (hd : clientDo cfg.redirects 1 ex.hops ex.final = .resp r) (hlen : t.body.length < two64) :
+    (hit t u cfg seq ex).res.bytesOut = t.body.length := by
+  rw [aux_hit_resp t u cfg seq ex req0 r h hd]
+  obtain ⟨_, _, _, _, _, _, _, _, _, _, hbo, _⟩ := aux_consume cfg (base t cfg seq) (inject cfg seq req0) r ex.chunks
+  rw [hbo, aux_content_length t u req0 cfg seq h, if_pos (by omega)]
+  have : wrapU64 (t.body.length : Int) = t.body.length := wrapU64_id ⟨by omega, by unfold two64 at *; omega⟩
+  rw [this]; simp
+
+/-- a response whose 11-byte body fails after 5 bytes, for a POST with a 3-byte body: the
+former defect witness, now with the right counts -/
 def witnessTarget : Target := { method := [80, 79, 83, 84], url := [104, 116, 116, 112, 58, 47, 47, 97, 47], body := [1, 2, 3], header := [] }
 def witnessUrl : UrlInfo := { ok := true, str := [104, 116, 116, 112, 58, 47, 47, 97, 47], host := [97], errText := [101] }
 def witnessCfg : Cfg := { maxBody := -1, chunked := false, redirects := some 10, name := [] }
@@ -532,65 +562,15 @@ def witnessExchange : Exchange :=
                          body := [104, 101, 108, 108, 111, 32, 119, 111, 114, 108, 100],
                          failAfter := some 5, readErr := [114, 101, 115, 101, 116], endWithData := false } }
 
-theorem bytes_in_eq_len_body_counterexample :
-    (hit witnessTarget witnessUrl witnessCfg 0 witnessExchange).res.body.length = 5 ∧
-    (hit witnessTarget witnessUrl witnessCfg 0 witnessExchange).res.bytesIn = 0 := by decide
+example : (hit witnessTarget witnessUrl witnessCfg 0 witnessExchange).res.body.length = 5 ∧
+    (hit witnessTarget witnessUrl witnessCfg 0 witnessExchange).res.bytesIn = 5 ∧
+    (hit witnessTarget witnessUrl witnessCfg 0 witnessExchange).res.bytesOut = 3 := by decide
 
-theorem bytes_out_eq_len_request_body_counterexample :
-    witnessTarget.body.length = 3 ∧
-    (hit witnessTarget witnessUrl witnessCfg 0 witnessExchange).res.bytesOut = 0 ∧
-    (hit witnessTarget witnessUrl witnessCfg 0 witnessExchange).req.map (·.body) = some (some [1, 2, 3]) := by decide
-
-/-- `bytes_in_eq_len_body`, proved on every path except "body read error after at least one
-captured byte": completed exchanges, request-construction failures, transport errors, redirect
-policy errors and read errors before the first captured byte. -/
-theorem bytes_in_eq_len_body_partial (t : Target) (u : UrlInfo) (cfg : Cfg) (seq : Nat) (ex : Exchange)
-    (hno : ∀ r, clientDo cfg.redirects 1 ex.hops ex.final = .resp r → r.failAfter.isSome = true →
-      capture cfg.maxBody (avail r) = []) :
-    (hit t u cfg seq ex).res.bytesIn = (hit t u cfg seq ex).res.body.length := by
-  cases pathOf t u cfg ex with
-  | reqError e h => rw [aux_hit_req_error t u cfg seq ex e h]; rfl
-  | doError req0 text h hd => rw [aux_hit_do_error t u cfg seq ex req0 text h hd]; rfl
-  | response req0 r h hd =>
-    rw [aux_hit_resp t u cfg seq ex req0 r h hd]
-    obtain ⟨_, _, _, hb, _, _, _, _, _, hfail, hok⟩ := aux_consume cfg (base t cfg seq) (inject cfg seq req0) r ex.chunks
-    rw [hb]
-    cases hfa : r.failAfter.isSome with
-    | true => rw [(hfail hfa).2.2.1, hno r hd hfa]; rfl
-    | false => exact (hok hfa).2.2.1
-
-/-- `bytes_out_eq_len_request_body`, proved for every completed exchange (the request body
-is shorter than 2^64 bytes): bytes-out is the length of the target's body. -/
-theorem bytes_out_eq_len_request_body_partial (t : Target) (u : UrlInfo) (cfg : Cfg) (seq : Nat) (ex : Exchange)
-    (r : Resp) (hc : Completed t u cfg ex r) (hlen : t.body.length < two64) :
-    (hit t u cfg seq ex).res.bytesOut = t.body.length := by
-  obtain ⟨⟨req0, h⟩, hd, hn⟩ := hc
-  rw [aux_hit_resp t u cfg seq ex req0 r h hd]
-  obtain ⟨_, _, _, _, _, _, _, _, _, _, hok⟩ := aux_consume cfg (base t cfg seq) (inject cfg seq req0) r ex.chunks
-  rw [(hok (by rw [hn]; rfl)).2.2.2.1]
-  have hcl : (inject cfg seq req0).contentLength = t.body.length := by
-    unfold request at h
-    simp only at h
-    generalize (if t.method.isEmpty = true then methodGet else t.method) = m at h
-    by_cases h1 : (!validMethod m) = true
-    · rw [if_pos h1] at h; cases h
-    · rw [if_neg h1] at h
-      by_cases h2 : (!u.ok) = true
-      · rw [if_pos h2] at h; cases h
-      · rw [if_neg h2] at h; injection h with h; subst h; rfl
-  rw [hcl, if_pos (by omega)]
-  have : wrapU64 (t.body.length : Int) = t.body.length := wrapU64_id ⟨by omega, by unfold two64 at *; omega⟩
-  rw [this]; simp
-
-/-- both counts on a completed exchange, as the property states them -/
-theorem completed_byte_counts (t : Target) (u : UrlInfo) (cfg : Cfg) (seq : Nat) (ex : Exchange)
-    (r : Resp) (hc : Completed t u cfg ex r) (hlen : t.body.length < two64) :
-    (hit t u cfg seq ex).res.bytesIn = (hit t u cfg seq ex).res.body.length ∧
-    (hit t u cfg seq ex).res.bytesOut = t.body.length := by
-  refine ⟨bytes_in_eq_len_body_partial t u cfg seq ex ?_, bytes_out_eq_len_request_body_partial t u cfg seq ex r hc hlen⟩
-  intro r' hd' hfa
-  obtain ⟨_, hd, hn⟩ := hc
-  rw [hd] at hd'; injection hd' with hd'; subst hd'; rw [hn] at hfa; cases hfa
+-- a read error that only shows in the drain (max-body 2 < failure point 5)
+example : (hit witnessTarget witnessUrl { witnessCfg with maxBody := 2 } 0 witnessExchange).res.body.length = 2 ∧
+    (hit witnessTarget witnessUrl { witnessCfg with maxBody := 2 } 0 witnessExchange).res.bytesIn = 2 ∧
+    (hit witnessTarget witnessUrl { witnessCfg with maxBody := 2 } 0 witnessExchange).res.bytesOut = 3 ∧
+    (hit witnessTarget witnessUrl { witnessCfg with maxBody := 2 } 0 witnessExchange).res.error = [114, 101, 115, 101, 116] := by decide
 
 /-! ### the request that reaches the transport -/
 
